@@ -167,13 +167,13 @@ def run(ctx):
     if len(obs) < 1:
         ctx.checker_errors.append("no round-trip obligation generated for export/import_connection_target")
     ctx.discharge(obs, cc.KEY + " ; " + c_import.KEY + " [round trip, one symbolic run]", info)
-    key, obs, info = c_import.import_concat_obligations()
+    key, obs, info = c_import.import_concat_obligations(8 if ctx.tier == "thorough" else 4)
     for u in info.get("unsupported", []):
         ctx.unsupported.append((key, u))
     if len(obs) < 4 and not info.get("unsupported"):
         ctx.checker_errors.append(f"only {len(obs)} obligations for import_concat")
     ctx.discharge(obs, key + " [parts in reverse order; 1-4 parts]", info)
-    key, obs, info = cc.export_concat_obligations()
+    key, obs, info = cc.export_concat_obligations(8 if ctx.tier == "thorough" else 4)
     ctx.discharge(obs, key + " [parts in reverse order; 1-4 parts]", info)
     ctx.assumptions.append("import_concat / export_concat: part order proved for 1-4 parts (arity unrolled); from_proto's "
                            "module and instance loops are not under contract (bounded part); "
